@@ -29,12 +29,14 @@ class verb(Command):
     def invoke(self, tex):
         """ Parse for matching delimiters """
         self.ownerDocument.context.push(self)
-        self.parse(tex)
+        # The characters must lose their special meaning before the
+        # optional * is looked for, since that reads the delimiter
         self.ownerDocument.context.setVerbatimCatcodes()
+        self.parse(tex)
         # See what the delimiter is
         for endpattern in tex:
             self.delimiter = endpattern
-            if isinstance(endpattern, bgroup):
+            if isinstance(endpattern, bgroup) or endpattern == '{':
                 self.delimiter = endpattern = Other('}')
             break
         tokens = [self, endpattern]
